@@ -90,7 +90,9 @@ class FreePolicy(object):
                     state.assume(dp[i].re >= 0)
                 for i in range(k - 1):
                     state.assume(dp[i].re >= dp[i + 1].re)
-                if self.positive_spectrum and k > 0:
+                if self.positive_spectrum == 'first' and k > 0:
+                    state.assume(dp[0].re > 0)
+                elif self.positive_spectrum and k > 0:
                     state.assume(dp[k - 1].re > 0)
         elif kind == 'qr':
             P = symarray(tag + '.Q', (m, k), cplx)
